@@ -20,7 +20,7 @@ pub mod vs {
     pub fn streams_equal(i: usize, j: usize) -> bool { crate::stubs::streams_equal(i, j) }
     pub fn streams_reset() { crate::stubs::th_reset() }
     /// ring stub kind: position table for virtual nodes (node id 0..=4, index 0..=1) and the key position
-    pub fn ring_set(table: [[u64; 2]; 5], key_pos: u64) { unsafe { crate::stubs::RING_VN = table; crate::stubs::RING_KEY = key_pos; } }
+    pub fn ring_set(layout: usize, key_pos: u64) { unsafe { crate::stubs::RING_LAYOUT = layout; crate::stubs::RING_KEY = key_pos; } }
     pub const NATIVE: bool = false;
 }
 
